@@ -17,7 +17,7 @@ RULE = (
 )
 BOUNDS = {
     "quick": "16 fail contexts + 8 policy subsets x 6 error programs x 156 files of <=3 records; 5 singles + 20 pairs x 8 files x 6 methods",
-    "thorough": "same programs x all 781 files of <=4 records; singles, pairs, 60 triples x 12 files x 6 methods",
+    "thorough": "same programs x all 3,906 files of <=5 records; singles, pairs, 60 triples x 12 files x 6 methods",
 }
 CHUNK = 150
 BUDGET = {"quick": 600, "thorough": 3400}
@@ -85,7 +85,7 @@ def files(nmax):
 def cases(tier, seed):
     from mcx import groups
 
-    nmax = 3 if tier == "quick" else 4
+    nmax = 3 if tier == "quick" else 5
     for pat in files(nmax):
         for name in CONTEXTS:
             yield {"kind": "ctx", "prog": name, "file": pat, "policy": ["collect"]}
